@@ -21,6 +21,9 @@ Fixpoint beq (a b : bytes) : bool :=
   | _, _ => false
   end.
 
+(* list reversal in linear time (List.rev is quadratic once extracted) *)
+Definition frev {A} (l : list A) : list A := rev_append l [].
+
 Definition is_nil {A} (l : list A) : bool := match l with [] => true | _ => false end.
 
 (* length as a binary number (no big nat numerals anywhere) *)
@@ -80,7 +83,7 @@ Fixpoint ltrim_rev (s : bytes) : bytes :=
            end
   end.
 
-Definition rtrim (s : bytes) : bytes := rev (ltrim_rev (rev s)).
+Definition rtrim (s : bytes) : bytes := frev (ltrim_rev (frev s)).
 Definition trim (s : bytes) : bytes := rtrim (ltrim s).
 
 (* number of leading bytes forming one space character (0 = none) *)
@@ -118,7 +121,7 @@ Definition space_width_rev (s : bytes) : nat :=
 
 (* a string is "tight" when it neither starts nor ends with a space character *)
 Definition tight (s : bytes) : bool :=
-  negb (is_nil s) && Nat.eqb (space_width s) 0 && Nat.eqb (space_width_rev (rev s)) 0.
+  negb (is_nil s) && Nat.eqb (space_width s) 0 && Nat.eqb (space_width_rev (frev s)) 0.
 
 (* ---------- strings.Cut / Split / Join on one separator byte ---------- *)
 (* cut sep s = (before, after, found) *)
